@@ -1522,6 +1522,14 @@ class Interp:
         return body
 
     def call(self, e, env):
+        if isinstance(e.func, ast.Lambda) and not e.keywords and not any(isinstance(a, ast.Starred) for a in e.args):
+            # (lambda p, q: body)(x, y): the body with its parameters bound
+            la = e.func.args
+            if not (la.vararg or la.kwarg or la.kwonlyargs or la.defaults or la.posonlyargs) and len(la.args) == len(e.args):
+                env2 = dict(env)
+                for p_, a_ in zip(la.args, e.args):
+                    env2[p_.arg] = self.ev(a_, env)
+                return self.ev(e.func.body, env2)
         fn = astq.callee_name(self.prog, self.fi, e)
         if fn in ("isinstance", "all", "any"):
             t = self.truth(e, env)
@@ -1644,6 +1652,17 @@ class Interp:
             if n is not None and d is not None:
                 return Msk(n, d, bool(isinstance(inv, K) and inv.v is True))
             return E(e)
+        if fn in ("numpy.flatnonzero", "numpy.nonzero", "numpy.where", "numpy.argwhere") and len(args) == 1 and not kw and isinstance(args[0], Msk):
+            # the positions where the mask is set, ascending
+            m_ = args[0]
+            j = self.fresh("v")
+            body = ("int", P.s(j))
+            if m_.dom is not None:
+                body = ("if", ("notin" if m_.neg else "in", P.s(j), m_.dom), body)
+            elif not m_.neg:
+                body = EMPTY
+            pos = Sq(("for", j, P.c(0), m_.n, body))
+            return pos if fn == "numpy.flatnonzero" else (Tup([pos]) if fn in ("numpy.nonzero", "numpy.where") else Sq(("opq", "argwhere (column vector of positions)")))
         if fn == "numpy.logical_not" and args and isinstance(args[0], Msk):
             return Msk(args[0].n, args[0].dom, not args[0].neg)
         if fn in ("numpy.ones", "numpy.zeros", "numpy.full") and args:
